@@ -89,6 +89,23 @@ theorem partition_function (β : ℚ) (L : Nat) (A : ι → Matrix S S ℚ) :
       = β ^ n * ((L.choose n : ℚ) * ((L - n).factorial / L.factorial)) * ∑ p : Fin n → ι, Matrix.trace (wordProd A p) := by ring
     _ = β ^ n / n.factorial * ∑ p : Fin n → ι, Matrix.trace (wordProd A p) := by rw [this]; ring
 
+/-- **State marginal at cutoff L.** The same sum without the trace: the total SSE weight of all
+configurations whose `p = 0` state is `α` is the diagonal entry `⟨α|T_L(βM)|α⟩` of the Taylor
+polynomial — the distribution of the spin state the sampler returns, `∝ diag e^{β(C−H)} ∝ diag e^{−βH}`
+as `L → ∞`. -/
+theorem state_marginal (β : ℚ) (L : Nat) (A : ι → Matrix S S ℚ) (α : S) :
+    ∑ n ∈ range (L + 1), ∑ _pos ∈ powersetCard n (range L), ∑ p : Fin n → ι,
+        β ^ n * ((L - n).factorial / L.factorial) * (wordProd A p) α α
+      = ∑ n ∈ range (L + 1), β ^ n / n.factorial * ((∑ b, A b) ^ n) α α := by
+  refine Finset.sum_congr rfl (fun n hn => ?_)
+  have hnL : n ≤ L := by simpa [Nat.lt_succ_iff] using hn
+  rw [Finset.sum_const, card_powersetCard, card_range, sum_pow_eq_sum_words, Matrix.sum_apply,
+    ← Finset.mul_sum, nsmul_eq_mul]
+  have := placement_weight L n hnL
+  calc (L.choose n : ℚ) * (β ^ n * ((L - n).factorial / L.factorial) * ∑ p : Fin n → ι, (wordProd A p) α α)
+      = β ^ n * ((L.choose n : ℚ) * ((L - n).factorial / L.factorial)) * ∑ p : Fin n → ι, (wordProd A p) α α := by ring
+    _ = β ^ n / n.factorial * ∑ p : Fin n → ι, (wordProd A p) α α := by rw [this]; ring
+
 end trace
 
 /-- **Operator-count estimator at cutoff L**: `Σ_{n≤L} n βⁿ/n! tₙ = β Σ_{n<L} βⁿ/n! tₙ₊₁`.
@@ -109,5 +126,110 @@ theorem mean_n_identity (β : ℚ) (t : Nat → ℚ) (L : Nat) :
   rw [hn]; push_cast
   field_simp
   ring
+
+
+/-! ### per-bond operator counts -/
+
+section counts
+variable [Fintype ι] [DecidableEq ι]
+
+/-- number of occurrences of bond `b` in the word `p` -/
+def countIn (b : ι) {n : Nat} (p : Fin n → ι) : Nat := ∑ i, if p i = b then 1 else 0
+
+theorem countIn_cons (b c : ι) {n : Nat} (q : Fin n → ι) :
+    countIn b (Fin.cons c q : Fin (n + 1) → ι) = (if c = b then 1 else 0) + countIn b q := by
+  unfold countIn
+  rw [Fin.sum_univ_succ]
+  simp [Fin.cons_zero, Fin.cons_succ]
+
+/-- `K_n = Σ_words (#b in word) · A(word)` has the closed form `Σ_{i<n} M^i A_b M^{n-1-i}`. -/
+theorem count_weighted_words (A : ι → R) (b : ι) (n : Nat) :
+    ∑ p : Fin n → ι, (countIn b p : R) * wordProd A p
+      = ∑ i ∈ range n, (∑ c, A c) ^ i * A b * (∑ c, A c) ^ (n - 1 - i) := by
+  induction n with
+  | zero => simp [countIn]
+  | succ n ih =>
+    rw [← Fintype.sum_equiv (Fin.consEquiv (fun _ => ι))
+      (fun x => (countIn b (Fin.cons x.1 x.2 : Fin (n+1) → ι) : R) * wordProd A (Fin.cons x.1 x.2))
+      (fun p => (countIn b p : R) * wordProd A p) (fun x => rfl)]
+    rw [Fintype.sum_prod_type]
+    simp only [countIn_cons, wordProd_cons, Nat.cast_add, add_mul]
+    rw [Finset.sum_comm]
+    simp only [Finset.sum_add_distrib]
+    -- first part: the new letter is `b`
+    have h1 : ∑ q : Fin n → ι, ∑ c, ((if c = b then (1 : ℕ) else 0 : ℕ) : R) * (A c * wordProd A q)
+        = A b * (∑ c, A c) ^ n := by
+      rw [sum_pow_eq_sum_words, Finset.mul_sum]
+      refine Finset.sum_congr rfl (fun q _ => ?_)
+      rw [Finset.sum_eq_single b]
+      · simp
+      · intro c _ hc; simp [hc]
+      · intro h; exact absurd (Finset.mem_univ b) h
+    -- second part: recursion
+    have h2 : ∑ q : Fin n → ι, ∑ c, (countIn b q : R) * (A c * wordProd A q)
+        = (∑ c, A c) * ∑ q : Fin n → ι, (countIn b q : R) * wordProd A q := by
+      rw [Finset.mul_sum]
+      refine Finset.sum_congr rfl (fun q _ => ?_)
+      rw [Finset.sum_mul]
+      refine Finset.sum_congr rfl (fun c _ => ?_)
+      rw [← mul_assoc, ← mul_assoc, (Nat.cast_commute (countIn b q) (A c)).eq]
+    rw [h1, h2, ih, Finset.sum_range_succ', Finset.mul_sum]
+    simp only [pow_zero, one_mul, Nat.add_sub_cancel, Nat.sub_zero]
+    rw [add_comm]
+    congr 1
+    refine Finset.sum_congr rfl (fun i hi => ?_)
+    have : n - (i + 1) = n - 1 - i := by omega
+    rw [this, pow_succ']
+    simp only [mul_assoc]
+
+end counts
+
+section counts_trace
+variable [Fintype ι] [DecidableEq ι] {S : Type} [Fintype S] [DecidableEq S]
+
+/-- **Per-bond count, fixed n**: `Σ_words (#b in word) · Tr(A(word)) = n · Tr(A_b M^{n-1})`. -/
+theorem count_trace (A : ι → Matrix S S ℚ) (b : ι) (n : Nat) :
+    ∑ p : Fin n → ι, (countIn b p : ℚ) * Matrix.trace (wordProd A p)
+      = n * Matrix.trace (A b * (∑ c, A c) ^ (n - 1)) := by
+  have h := congrArg Matrix.trace (count_weighted_words A b n)
+  rw [Matrix.trace_sum, Matrix.trace_sum] at h
+  have hl : ∀ p : Fin n → ι, Matrix.trace ((countIn b p : Matrix S S ℚ) * wordProd A p)
+      = (countIn b p : ℚ) * Matrix.trace (wordProd A p) := by
+    intro p
+    rw [← nsmul_eq_mul, Matrix.trace_smul, nsmul_eq_mul]
+  simp only [hl] at h
+  rw [h]
+  have hr : ∀ i ∈ range n, Matrix.trace ((∑ c, A c) ^ i * A b * (∑ c, A c) ^ (n - 1 - i))
+      = Matrix.trace (A b * (∑ c, A c) ^ (n - 1)) := by
+    intro i hi
+    have hi' : i < n := Finset.mem_range.mp hi
+    rw [mul_assoc, Matrix.trace_mul_comm, mul_assoc, ← pow_add]
+    congr 3; omega
+  rw [Finset.sum_congr rfl hr, Finset.sum_const, card_range, nsmul_eq_mul]
+
+/-- **Per-bond operator count at cutoff L**: weighting every SSE configuration class by the number
+of `b`-operators it holds gives `β · Σ_{n<L} βⁿ/n! · Tr(A_b Mⁿ)`; divided by the partition
+function this is `⟨n_b⟩ = β·Tr(A_b T_{L−1}(βM))/Tr(T_L(βM)) → β⟨M_b⟩`. -/
+theorem bond_count_identity (β : ℚ) (L : Nat) (A : ι → Matrix S S ℚ) (b : ι) :
+    ∑ n ∈ range (L + 1), ∑ _pos ∈ powersetCard n (range L), ∑ p : Fin n → ι,
+        (countIn b p : ℚ) * sseWeight β L A p
+      = β * ∑ n ∈ range L, β ^ n / n.factorial * Matrix.trace (A b * (∑ c, A c) ^ n) := by
+  have hm := mean_n_identity β (fun n => Matrix.trace (A b * (∑ c, A c) ^ (n - 1))) L
+  simp only [Nat.add_sub_cancel] at hm
+  rw [← hm]
+  refine Finset.sum_congr rfl (fun n hn => ?_)
+  have hnL : n ≤ L := by simpa [Nat.lt_succ_iff] using hn
+  rw [Finset.sum_const, card_powersetCard, card_range]
+  unfold sseWeight
+  have : ∑ p : Fin n → ι, (countIn b p : ℚ) * (β ^ n * ((L - n).factorial / L.factorial) * Matrix.trace (wordProd A p))
+      = β ^ n * ((L - n).factorial / L.factorial) * ∑ p : Fin n → ι, (countIn b p : ℚ) * Matrix.trace (wordProd A p) := by
+    rw [Finset.mul_sum]; refine Finset.sum_congr rfl (fun p _ => ?_); ring
+  rw [this, count_trace, nsmul_eq_mul]
+  have hw := placement_weight L n hnL
+  calc (L.choose n : ℚ) * (β ^ n * ((L - n).factorial / L.factorial) * (n * Matrix.trace (A b * (∑ c, A c) ^ (n - 1))))
+      = (n : ℚ) * (β ^ n * ((L.choose n : ℚ) * ((L - n).factorial / L.factorial)) * Matrix.trace (A b * (∑ c, A c) ^ (n - 1))) := by ring
+    _ = (n : ℚ) * (β ^ n / n.factorial * Matrix.trace (A b * (∑ c, A c) ^ (n - 1))) := by rw [hw]; ring
+
+end counts_trace
 
 end Qmc.SSE
